@@ -237,6 +237,14 @@ class Contract:
     def opaque_attr(self, eng, path, obj, name):
         return None
 
+    def opaque_contains(self, eng, path, container, item, e):
+        """`item in <opaque>`: a z3 Bool, or None when the contract gives no meaning to it"""
+        return None
+
+    def opaque_index(self, eng, path, container, idx, e):
+        """`<opaque>[idx]`: a value, or None"""
+        return None
+
     def property_contract(self, obj, name):
         return self.props.get(name)
 
@@ -255,9 +263,18 @@ class Contract:
         return self.classes.isinstance_term(eng, path, v, clsnames)
 
     def exc_subclass(self, exc, handler_names):
-        table = {"FileNotFoundError": {"OSError"}, "JSONDecodeError": {"ValueError"}, "URLError": {"OSError"},
-                 "KeyError": {"LookupError"}, "IndexError": {"LookupError"}}
-        return bool(table.get(exc, set()) & set(handler_names))
+        """is the raised exception class a subclass of one of the handler's classes?  Decided on CPython's real classes."""
+        def cls(name):
+            import builtins, json, urllib.error, http.client
+            for ns in (builtins, json, urllib.error, http.client):
+                k = getattr(ns, name.split(".")[-1], None)
+                if isinstance(k, type) and issubclass(k, BaseException):
+                    return k
+            return None
+        k = cls(exc)
+        if k is None:
+            return False
+        return any(cls(h) is not None and issubclass(k, cls(h)) for h in handler_names)
 
     def lower(self, t):
         return LOWER(t)
@@ -573,7 +590,7 @@ def verify(contract: Contract, tier="quick", callee_contracts=None) -> list[OR]:
                 allunsat = False
         results.append(OR(id=f"{prefix}.mustfail.{nm}", status=REFUTED if refuted else (PROVED if allunsat else UNKNOWN), kind="G",
                           target=target, role="guard", must_fail=True, desc=f"must-fail twin: NOT '{nm}' has to be refuted"))
-    if not posts:
+    if not posts and not any(vc.id.startswith("pre.") for vc in vcs):       # call-site preconditions of callee contracts are obligations too
         results.append(OR(id=f"{prefix}.guard.noposts", status=ERROR, kind="G", target=target, role="guard",
                           detail="no postcondition VC generated"))
     for r in results:
